@@ -54,9 +54,10 @@ ASSUMPTIONS = [
     'increment) only',
     'two backups within one simulated second collide by design '
     '(WouldOverwriteFiles): the clock is stepped >= 1 s between backups',
-    'a pack that swaps the data file between repozo\'s size probe and its '
-    'copy is a finer interleaving than the property\'s "series of backups '
-    'of a live data file" and is not explored',
+    'of the finer interleavings between repozo and the live process one '
+    'is explored: a pack that swaps the data file between repozo\'s scan '
+    'and its copy (repozo must give up); a pack between its checksum '
+    'comparison and its scan is not',
 ]
 SHRINK = ['ops']
 SRC = '/sim/Data.fs'
@@ -130,6 +131,9 @@ def gen(seed, tier):
             elif y < 0.6:
                 # the backup process is killed while it reads / copies
                 b['dies'] = r.random()
+            elif y < 0.68:
+                # the live process packs between repozo's scan and copy
+                b['pack_before_copy'] = True
             ops.append(b)
         else:
             ops.append({'op': 'clockstep', 's': r.choice((1, 2, 61, 3600))})
@@ -163,6 +167,7 @@ class Repo:
         self.evals = 0
         self.backups = []       # dict(date, bytes, model, opts)
         self.die_after = None
+        self.pack_before_copy = None
         self.trace = []
 
     def flag(self, o, x):
@@ -187,6 +192,16 @@ class Repo:
                     func(data)
                 return real_dofile(func2, fp, n)
             rz.dofile = dofile
+        real_copyfile = rz.copyfile
+        if self.pack_before_copy:
+            # the live process packs between repozo's scan of the data file
+            # and its copy
+            hook = self.pack_before_copy
+
+            def copyfile(options, dst, start, n):
+                hook()
+                return real_copyfile(options, dst, start, n)
+            rz.copyfile = copyfile
         try:
             with contextlib.redirect_stdout(out), \
                     contextlib.redirect_stderr(out):
@@ -203,6 +218,7 @@ class Repo:
             return ('raised', '%s: %s' % (type(e).__name__, str(e)[:120]))
         finally:
             rz.dofile = real_dofile
+            rz.copyfile = real_copyfile
 
     def reap(self, tb):
         """The killed process's open files: what their buffers hold is
@@ -301,10 +317,27 @@ class Repo:
         if 'dies' in op:
             # (an incremental backup reads the file twice: checksum, copy)
             self.die_after = int(op['dies'] * 2 * len(committed))
+        packed = []
+        if op.get('pack_before_copy') and parked is None:
+            def hook():
+                size0 = len(fs.names[SRC].data)
+                d.execute({'op': 'pack', 'where': 'after_all', 'at': 0})
+                packed.append(len(fs.names[SRC].data) != size0)
+            self.pack_before_copy = hook
         try:
             res = self.repozo(argv)
         finally:
             self.die_after = None
+            self.pack_before_copy = None
+        if packed and packed[0] and res[0] == 'raised' and \
+                res[1].startswith('AssertionError'):
+            # the data file shrank under the copy: repozo gives up, nothing
+            # of this backup counts
+            self.trace.append('backup-gave-up-after-pack:')
+            if restore is not None:
+                fs.names[SRC].data[:] = restore
+            sim.clock.advance(1.5)
+            return
         if restore is not None:
             fs.names[SRC].data[:] = restore
         if parked is not None:
